@@ -29,6 +29,10 @@ func c02Payload(first string, n int) ([]byte, int) {
 			d := elem[1]
 			zz.Assume(!(d >= 0xc7 && d <= 0xc9) && !(d >= 0xd4 && d <= 0xd8))
 			zz.Assume(d != 0xc5 && d != 0xc6 && d != 0xda && d != 0xdb && !(d >= 0xdc && d <= 0xdf))
+			// the last symbolic byte may start the next key or value: no 16/32-bit length
+			// header there either (it would take its length from the fixed bytes that follow)
+			g := elem[2]
+			zz.Assume(g != 0xc5 && g != 0xc6 && g != 0xda && g != 0xdb && !(g >= 0xdc && g <= 0xdf) && g != 0xc8 && g != 0xc9)
 		}
 		b = append(b, elem...)
 		b = append(b, 0xa1, 'v', 0x91, 0x07)
